@@ -326,8 +326,8 @@ func (fr *Frame) execCall(ins ssa.CallInstruction, cc *ssa.CallCommon) []Term {
 		return res
 	}
 	ord := fr.callOrdinal(ci.key)
-	fr.ghostAtCall(ci, ord, "before", args)
 	fr.callSpecAsserts(ci, ord, args, argTypes)
+	fr.ghostAtCall(ci, ord, "before", args)
 	var res []Term
 	switch {
 	case ci.fc != nil && !ci.fc.Inline:
@@ -367,6 +367,7 @@ func (fr *Frame) callSpecAssumes(ci *calleeInfo) {
 		}
 		env := fr.anchorEnv()
 		fr.c.assume(implies(fr.reach, env.mustBool(cs.E)))
+		top.callOrd["fired:"+cs.Src] = 1
 		fr.c.assumed["explicit assumption in contract of "+shortKey(top.fc.Key)+": "+cs.Src] = true
 	}
 }
@@ -411,8 +412,15 @@ func (fr *Frame) canInline(f *ssa.Function) bool {
 
 // calleeEnv builds the environment in which a callee's contract is evaluated at a call site.
 func (fr *Frame) calleeEnv(ci *calleeInfo, fc *FuncContract, args []Term, argTypes []types.Type, st *State) *Env {
+	return fr.calleeEnvDyn(ci, fc, args, argTypes, st, nil)
+}
+
+func (fr *Frame) calleeEnvDyn(ci *calleeInfo, fc *FuncContract, args []Term, argTypes []types.Type, st *State, actuals []ssa.Value) *Env {
 	_, names := fr.c.V.signatureOf(fc)
 	env := &Env{c: fr.c, pkg: fr.c.V.pkgOfKey(fc.Key), vars: map[string]Binding{}, st: st, fr: nil}
+	if dp := fr.c.V.P.ByPath[fc.DeclPkg]; dp != nil {
+		env.pkg = dp.Types
+	}
 	if len(names) < len(args) {
 		// unnamed parameters: synthesize a0, a1...
 		for i := len(names); i < len(args); i++ {
@@ -437,6 +445,14 @@ func (fr *Frame) calleeEnv(ci *calleeInfo, fc *FuncContract, args []Term, argTyp
 			ty = argTypes[i]
 		}
 		env.vars[n] = Binding{a, ty}
+		if i < len(actuals) && actuals[i] != nil {
+			if mi, ok := actuals[i].(*ssa.MakeInterface); ok {
+				if env.dyn == nil {
+					env.dyn = map[string]types.Type{}
+				}
+				env.dyn[n] = mi.X.Type()
+			}
+		}
 	}
 	return env
 }
@@ -445,7 +461,14 @@ func (fr *Frame) applyContract(ins ssa.CallInstruction, ci *calleeInfo, args []T
 	c := fr.c
 	fc := ci.fc
 	pre := fr.st
-	envPre := fr.calleeEnv(ci, fc, args, argTypes, pre)
+	var actuals []ssa.Value
+	if cc := ins.Common(); cc != nil {
+		if cc.IsInvoke() {
+			actuals = append(actuals, cc.Value)
+		}
+		actuals = append(actuals, cc.Args...)
+	}
+	envPre := fr.calleeEnvDyn(ci, fc, args, argTypes, pre, actuals)
 	short := lastSeg(shortKey(ci.key))
 	for _, r := range fc.Requires {
 		t, err := envPre.evalBool(r.E)
@@ -460,9 +483,7 @@ func (fr *Frame) applyContract(ins ssa.CallInstruction, ci *calleeInfo, args []T
 	post := pre.clone()
 	if !fc.Pure {
 		m := fr.preciseModSet(fc, envPre)
-		if !m.all {
-			m.alloc = m.alloc || true
-		}
+		m.alloc = true // the callee may allocate: the counter moves up
 		c.havoc(post, m, "call "+shortKey(ci.key))
 	}
 	fr.st = post
@@ -470,7 +491,7 @@ func (fr *Frame) applyContract(ins ssa.CallInstruction, ci *calleeInfo, args []T
 	for _, r := range res {
 		c.assumeTypeInv(r, nil, post)
 	}
-	envPost := fr.calleeEnv(ci, fc, args, argTypes, post)
+	envPost := fr.calleeEnvDyn(ci, fc, args, argTypes, post, actuals)
 	envPost.old = envPre
 	rt := ci.sig.Results()
 	for i, r := range res {
@@ -568,6 +589,11 @@ func (fr *Frame) preciseModSet(fc *FuncContract, env *Env) *ModSet {
 				hn := heapName(srt)
 				c.heapSort[hn] = srt
 				m.heapAll[hn] = true
+			case "pointee":
+				// the cell(s) the pointer held in an interface-typed parameter points to
+				v := env.eval(x.Args[0])
+				pt := env.dynPointer(x.Args[0])
+				addCell(c.unbox(app(SInt, "iref", v.T), SPtr), pt.Elem())
 			case "elems":
 				// all element cells of a slice (its whole capacity)
 				v := env.eval(x.Args[0])
@@ -729,6 +755,7 @@ func (fr *Frame) ghostAtCall(ci *calleeInfo, ord int, when string, args []Term) 
 		}
 		v := env.eval(g.E)
 		fr.c.setGhost(fr.st, g.Var, v.T)
+		top.callOrd["fired:"+g.Src] = 1
 	}
 	fr.bumpPattern(ci, when)
 }
@@ -754,6 +781,7 @@ func (fr *Frame) ghostAtCallAfter(ci *calleeInfo, ord int, args []Term, res []Te
 		}
 		v := env.eval(g.E)
 		fr.c.setGhost(fr.st, g.Var, v.T)
+		top.callOrd["fired:"+g.Src] = 1
 	}
 	fr.bumpPattern(ci, "after")
 }
@@ -829,6 +857,7 @@ func (fr *Frame) callSpecAsserts(ci *calleeInfo, ord int, args []Term, argTypes 
 			panic(err)
 		}
 		fr.oblige("at."+lastSeg(cs.Callee), cs.Label, t, token.NoPos, "call-site assertion: "+cs.Src)
+		top.callOrd["fired:"+cs.Src] = 1
 	}
 }
 
